@@ -65,6 +65,9 @@ type Config struct {
 	// advertises gzip the entity is sent with Content-Encoding: gzip (the .gz file compressed once more
 	// for transport); what the client stores must still be the entity itself
 	FrontEndGzip map[string]bool
+	// OnRequest, when set, is called synchronously for every request before it is answered (the
+	// client is waiting at that moment): lets a monitor look at the client's files DURING the run
+	OnRequest func(path string)
 }
 
 type Server struct {
@@ -354,6 +357,9 @@ func underlyingTCP(c net.Conn) (*net.TCPConn, bool) {
 
 func (s *Server) handle(w http.ResponseWriter, r *http.Request, connect string) {
 	s.record(r, connect)
+	if s.cfg.OnRequest != nil {
+		s.cfg.OnRequest(r.URL.Path)
+	}
 	auth := s.cfg.Auth
 	if auth == "" {
 		auth = "digest"
